@@ -9,7 +9,7 @@ LEVEL = "model_checking"
 RULE = ("one-step invariant I3 (posterior sigma finite, >0, <= sqrt(prior^2+tau_eff^2), <= prior when limit_sigma is in force) from "
         "EVERY alphabet state: spaces S2,P2,P3,T3,T4 under K0 and S2,T3 under K1-K8 + gamma=0, all weak orders; sigma=0 members "
         "wherever tau>0; the per-call option matrix tau in {omitted,0,tau0,2beta} x limit_sigma in {omitted,True,False} x 4 "
-        "model-level settings on S2 and T3|V6; histories: E2 BFS (reduced alphabet, depth 2 quick / 3 thorough) with I3 on every "
+        "model-level settings on S2 and T3|V6; histories: E2 BFS (reduced alphabet, depth 2; thorough adds depth 4 over the small alphabet) with I3 on every "
         "transition, and a narrow-deep search of all 3^d histories (d=8 quick, 12 thorough) over {1v1 with limit_sigma, 1v1 with "
         "tau=0, 3-way tie} with the running bound sigma_k^2 <= sigma_0^2 + sum tau_eff^2; non-trivial = case where the bound is "
         "binding or nearly so (posterior sigma > prior sigma, or the clamp changed the value)")
@@ -77,7 +77,7 @@ def space_games(sp, kind, cfg):
 
 def plan(ctx):
     out = []
-    sp0 = ["S2", "P2", "P3", "T3", "T4"] + (["T5", "D7", "D8", "D8x8"] if ctx.thorough else [])
+    sp0 = ["S2", "P2", "P3", "T3", "T4"] + (["T5", "D7", "D8", "D8x8"] if ctx.thorough else ["T5|V2", "D7b1", "D8b1"])
     for sp in sp0:
         out.append((sp, "K0", "plain"))
     for K in ["K1", "K2", "K3", "K4", "K5", "K6", "K7", "K8", "KG0", "K9", "K10"]:
@@ -94,7 +94,7 @@ def plan(ctx):
     return out
 
 
-PARTS = {"S2": 4, "P2": 6, "P3": 8, "T3": 8, "T4": 24, "T5": 64, "D7": 24, "D8": 64, "D8x8": 64, "T3z": 2, "S2z": 2, "T3|V6": 2}
+PARTS = {"T5|V2": 4, "D7b1": 4, "D8b1": 8, "S2": 4, "P2": 6, "P3": 8, "T3": 8, "T4": 24, "T5": 64, "D7": 24, "D8": 64, "D8x8": 64, "T3z": 2, "S2z": 2, "T3|V6": 2}
 
 
 def matrix(cfg):
@@ -251,7 +251,12 @@ def main(ctx, t0):
     acc = core.run_units(units(ctx), run_unit, ctx)
     core.deterministic_ids(0)
     searches = [(k, c, "reduced") for k in spaces.KINDS for c in ("default", "limit", "tau2b")]
-    stats, a2 = e2.explore(searches, 3 if ctx.thorough else 2, ctx, chunk=16, invs=("I3", "R7"))
+    stats, a2 = e2.explore(searches, 2, ctx, chunk=16, invs=("I3", "R7"))
+    if ctx.thorough:  # deeper histories over the small alphabet (depth 4: every state reachable by three calls is expanded)
+        deep = [(k, c, "small") for (k, c, _) in searches]
+        stats_d, a2d = e2.explore(deep, 4, ctx, chunk=64, invs=("I3", "R7"))
+        stats.update(stats_d)
+        a2.merge(a2d)
     for v in a2.violations:
         if v["case"]["inv"] in ("I3", "R7"):
             v["property"] = PID
